@@ -331,6 +331,18 @@ def run(check, an: Analysis):
                    '__aenter__ proceeds without waiting exactly when free or already owned: '
                    '%s' % sorted(nowait))
     check_forced_close_tolerated(check, an, 'R')
+    # every lock has a wait queue of its own, made when the lock is made: a queue that comes
+    # from a class attribute or from the default of a parameter is one object shared by all
+    # locks, and a release of one lock would wake a waiter of another
+    made = rules.constructor_field(an, LOCK, '_notification')
+    init = an.method(LOCK, '__init__')
+    fresh = isinstance(made, ast.Call) and not any(
+        isinstance(n, ast.Name) and n.id in {a.arg for a in init.node.args.args[1:] +
+                                             init.node.args.kwonlyargs}
+        for n in ast.walk(made))
+    check.instance('X', 'Lock.__init__:_notification', fresh, where_fn(init),
+                   'the wait queue is constructed per lock by its constructor: %s' % (
+                       ast.unparse(made) if made is not None else None))
     # the kernel rules every suspending operation rests on (shared; see _scope)
     from . import _scope as _kernel
     _kernel.check_kernel_core(check, an)
